@@ -102,7 +102,9 @@ def main():
     # selector expressions like `Horizontal | Stacked` refer to class enums; resolve them textually
     def qualify(e, cls):
         return re.sub(r"\b(Horizontal|Vertical|Stacked|Linear)\b", lambda m: "%s::%s" % (cls, m.group(1)), e)
-    prog_ids = []
+    XK_NAMES = ["BackSpace", "Delete", "KP_Left", "KP_Right", "Left", "Right", "Home", "End", "Escape", "Return", "space",
+                "Up", "Down", "Prior", "Next", "KP_Home", "KP_End"]
+    prog_ids = ["XK_" + n for n in XK_NAMES]
     for ct, sel, binds in maps:
         cls = "Editor" if "Editor" in ct else ct
         prog_ids.append(qualify(sel, cls))
@@ -124,6 +126,8 @@ def main():
         rows = ", ".join("(%d, %d, .%s)" % (k, m, a) for (k, m), a in sorted(table.items()))
         lines.append("def %s : Keymap %s := [%s]" % (name, ENUM[cls], rows))
         summary[name] = len(table)
+    for n in XK_NAMES:
+        lines.append("def xk%s : Int := %d" % (n.replace("_", ""), vals["XK_" + n]))
     for ct, h in sorted(char_handlers.items()):
         hv = {"DirectCommit": "directCommit", "AddToInput": "addToInput"}.get(h)
         if hv is None:
